@@ -186,16 +186,31 @@ struct RpcFeeder : Feeder {
   RpcFeeder() : peer(NULL) {
     if (!sock.Init()) abort();
     peer = sock.OppositeEnd();
+    int sz = 4 << 20;
+    setsockopt(peer->WriteDescriptor(), SOL_SOCKET, SO_SNDBUF, &sz, sizeof(sz));
+    setsockopt(sock.ReadDescriptor(), SOL_SOCKET, SO_RCVBUF, &sz, sizeof(sz));
     ch.reset(new ola::rpc::RpcChannel(NULL, &sock, &em));
   }
   ~RpcFeeder() { ch.reset(); delete peer; }
   ola::io::ConnectedDescriptor *desc() { return &sock; }
+  // A chunk may be larger than the socket buffer: when the (non-blocking) write would block the
+  // channel's read callback is run until it has taken everything, then the write continues.
   bool put(const uint8_t *p, size_t n) {
     size_t off = 0;
-    while (off < n) {
+    while (off < n && !closed()) {
       ssize_t w = write(peer->WriteDescriptor(), p + off, n - off);
-      if (w <= 0) return false;
-      off += w;
+      if (w > 0) { off += w; continue; }
+      if (w < 0 && (errno == EAGAIN || errno == EWOULDBLOCK || errno == EINTR)) {
+        unsigned long guard = 0;
+        int before = sock.DataRemaining();
+        while (!closed() && sock.DataRemaining() > 0) {
+          sock.PerformRead();
+          if (++guard > 300000) return false;
+        }
+        if (before == 0) return false;   // nothing to read and still no room
+        continue;
+      }
+      return closed();
     }
     return true;
   }
